@@ -42,6 +42,12 @@ def run(ctx):
 
 def _sign_sites(ctx, b):
     out = []
+    # no_std builds: catch_panic! expands to the bare expression, the call sits in the function itself
+    bv = None
+    for bi, c in b.calls():
+        if SIGN_CP(c.callee.name if c.callee else "") or SIGN_CP(c.decl.name if c.decl else ""):
+            bv = bv or fnview(ctx, b)
+            out.append((b, c, [bv.expr(a) for a in c.args]))
     for cb, bi, c in R.find_call_in_closures(ctx, b, SIGN_CP):
         env = R.closure_env(ctx, b, cb.d)
         cv = fnview(ctx, cb)
